@@ -62,6 +62,10 @@ type Config struct {
 	// explored history.
 	PreN  int `json:"pren,omitempty"`
 	PreF0 int `json:"pref0,omitempty"`
+	// PreKeyLost: the last packet of the pre-roll's keyframe (pre-roll frame
+	// 0) is lost for good, so that the first keyframe seen never completes
+	// and the recording has to start at a later keyframe.
+	PreKeyLost bool `json:"prekeylost,omitempty"`
 	// Pre-roll macro (audio only): PreA packets in order with every PreALoss-th
 	// one lost, which keeps the audio builder's buffer non-empty.
 	PreA     int `json:"prea,omitempty"`
@@ -269,7 +273,8 @@ func buildStream(c *Config) (*stream, error) {
 				}
 				raw := append(media.Hdr{Seq: seq, TS: ts, Marker: last, PT: 96, SSRC: 0x1111}.Bytes(), pay...)
 				vpk = append(vpk, pkt{G: seed, Track: trV, Frame: fi, Pos: pi, Seq: seq, TS: ts, Marker: last,
-					KF: f.Key && first, Raw: raw, Pay: pay, Cap: capt, Pre: fi < c.PreN})
+					KF: f.Key && first, Raw: raw, Pay: pay, Cap: capt, Pre: fi < c.PreN,
+					PreLost: c.PreKeyLost && c.PreN > 1 && fi == 0 && last})
 				g++
 				seq++
 			}
@@ -409,6 +414,9 @@ func (st *stream) describe() string {
 		}
 		s += fmt.Sprintf(" preroll=%d frames of 2 packets (the first of %d)", c.PreN, f0)
 	}
+	if c.PreKeyLost {
+		s += ", last packet of the pre-roll keyframe lost for good"
+	}
 	if c.PreA > 0 {
 		s += fmt.Sprintf(" audio-preroll=%d packets, every %dth lost", c.PreA, c.PreALoss)
 	}
@@ -436,4 +444,16 @@ func (st *stream) pname(i int) string {
 		return fmt.Sprintf("%s%d", t, fi)
 	}
 	return fmt.Sprintf("%s%d.%d", t, fi, p.Pos)
+}
+
+// macroAfter counts the packets of the same track that the pre-roll macro
+// delivers after packet i (in sending order).
+func (st *stream) macroAfter(i int) int {
+	n := 0
+	for j := i + 1; j < len(st.pk); j++ {
+		if st.pk[j].Track == st.pk[i].Track && st.pk[j].Macro && !st.pk[j].PreLost {
+			n++
+		}
+	}
+	return n
 }
